@@ -4,6 +4,7 @@
 set -e
 B=$(mktemp -d /tmp/mustache_baseline.XXXXXX)
 trap 'rm -rf "$B"' EXIT
-cmake -G Ninja -S /repo -B "$B" -DCMAKE_BUILD_TYPE=RelWithDebInfo >"$B/configure.log" 2>&1 || { tail -30 "$B/configure.log"; exit 1; }
+cmake -G Ninja -S /repo -B "$B" -DCMAKE_BUILD_TYPE=RelWithDebInfo -DMUSTACHE_BUILD_TESTS=ON -DFETCHCONTENT_SOURCE_DIR_GOOGLETEST=/usr/src/googletest -DFETCHCONTENT_FULLY_DISCONNECTED=ON >"$B/configure.log" 2>&1 || { tail -30 "$B/configure.log"; exit 1; }
 cmake --build "$B" -j16 >"$B/build.log" 2>&1 || { tail -50 "$B/build.log"; exit 1; }
-ctest --test-dir "$B" -j8 --timeout 900
+# the suite registers no ctest tests: the gtest binary is run directly (50 tests)
+"$B/bin/mustache_test" --gtest_brief=1
